@@ -14,7 +14,7 @@ EXPLANATION = ("(walk) real repair_dna on an arbitrary WALK of the graph (symbol
                "strictly increasing (z3 lexicographic terms) and every candidate reproduces the supplied check (independent VT formula)")
 STUBS = []
 ASSUMPTIONS = ["graphs are concrete members of a small family of generated graphs; strands, checks are symbolic", "strands are at least one window long"]
-BUDGET_S = {"quick": 1500, "thorough": 10000}
+BUDGET_S = {"quick": 1500, "thorough": 1500}
 
 
 def make_loader(cfg):
